@@ -465,6 +465,14 @@ class C04(Harness):
         ce2.set_params(c1=newc)
         out["column_ensemble_replace"] = {"written": ["id", ce2.estimators[1][1] is newc and ce2.get_params()["c1"] is newc], "replaced": ce2.estimators[1][1] is newc, "others_kept": 2 if ce2.estimators[0][0] == "c0" and len(ce2.estimators) == 2 else 0,
                                           "nested_after_replace": self._same(ce2.get_params().get("c1__constant", "<no such key>"), v), "unknown_nested": "ValueError"}
+        # a 'drop' placeholder is a component like any other: listed, and kept when another component is replaced by name
+        ce3 = CE([("a", "drop", [0]), ("b", DummyClassifier(), [0]), ("c", DummyClassifier(), [0])])
+        gp3 = ce3.get_params()
+        newb = DummyClassifier(strategy="constant", constant=v)
+        ce3.set_params(b=newb)
+        names3 = [n_ for n_, _, _ in ce3.estimators]
+        out["column_ensemble_drop"] = {"written": ["id", "a" in gp3 and gp3.get("a") == "drop"], "replaced": names3 == ["a", "b", "c"] and ce3.estimators[1][1] is newb and ce3.estimators[0][1] == "drop", "others_kept": 2 if len(ce3.estimators) == 3 else 0,
+                                       "nested_after_replace": self._same(ce3.get_params().get("b__constant", "<no such key>"), v), "unknown_nested": "ValueError"}
         shared = [("a", NF()), ("b", NF("mean"))]
         first, second = shared[0][1], shared[1][1]
         ea, eb = ENS(shared), ENS(shared)
@@ -640,6 +648,13 @@ class C04(Harness):
             "HampelFilter": (HF(window_length=3), "tr"),
             "LogTransformer": (LOGT(), "tr"),
         }
+        try:
+            OPT = W.load("sktime.transformations.series.compose").OptionalPassthrough
+            ests["OptionalPassthrough(passthrough=False)"] = (OPT(LOGT(), passthrough=False), "tr")
+            ests["OptionalPassthrough(passthrough=True)"] = (OPT(LOGT(), passthrough=True), "tr")
+        except Exception as e:  # noqa
+            if type(e).__module__.startswith("vf."):
+                raise
         # tuners: the search selects a value that differs from the one the caller configured (the series is a line, so
         # "drift" wins over the configured "mean"); the caller's forecaster must come back as it was passed
         try:
